@@ -37,7 +37,6 @@ def main():
               'engine': 'tlc', 'technique': c['technique'],
               'level_claimed': {'category': 'model_checking', 'text': c['text'], 'design_ref': c['design']},
               'level_note': c['note']})
-    m['engines'][0]['serves_properties'] = sorted(CLAIMS)
         else:
             m['not_applicable'].append({'property_id': p, 'reason': NA.get(p, PENDING)})
     json.dump(m, open(os.path.join(V, 'MANIFEST.json'), 'w'), indent=1)
